@@ -213,13 +213,15 @@ def classify(case, ctx_ep, f):
     if eff == "ret" and (ctx_ep.startswith("Sliding.") or (ctx_ep in ("Scheduler.tell", "Scheduler.tell_dqd", "Bandit.tell") and kind == "sliding")):
         return "sliding-buffer-retains-caller"
     if eff == "rw_store" and ctx_ep in ("Store.iter", "Archive.iter"):
-        return "iteration-yields-writable-views"
+        return "iter-writable-view"
     if eff == "mut" and ctx_ep == "viz.parallel_axes_plot":
         return "parallel-axes-sorts-caller-frame"
     if eff == "ret" and ctx_ep == "Store.from_raw_dict":
         return "from-raw-dict-keeps-caller-arrays"
+    if eff == "ret" and ctx_ep == "GA.ctor" and arg == "sigma":
+        return "operator-arg-retained"
     if eff == "ret" and ctx_ep in CTORS:
-        return "constructor-keeps-caller-array"
+        return "ctor-arg-retained"
     return "unclassified:%s:%s:%s" % (ctx_ep, eff, arg)
 
 
